@@ -143,6 +143,19 @@ impl Campaign for C02c {
             sc.programs.insert(id.clone(), Program::respond(200, token_body(&id, 5)));
             sc.programs.insert(format!("c{}r1", ci), Program::respond(200, b"m".to_vec()));
         }
+        if index % 25 == 24 {
+            // one long-lived connection: 80..200 requests whose heads add up to far more than 64 KiB
+            let ci = sc.conns.len();
+            let n = g.usize(80, 200);
+            let mut msgs = vec![];
+            for r in 0..n {
+                let id = format!("c{}r{}", ci, r);
+                let rq = Req::get(&id).header("X-Fill", &"f".repeat(g.usize(300, 1200)));
+                msgs.push(rq.bytes());
+                sc.programs.insert(id.clone(), Program::respond(200, token_body(&id, 5)));
+            }
+            sc.conns.push(ConnScript { steps: segment(&msgs, Seg::Fixed(*g.pick(&[4096usize, 60000])), 0, &mut g), coalesce: true, ..Default::default() });
+        }
         sc.receivers = loop_receivers(g.usize(1, 2), Dispatch::Inline);
         sc.note = format!("C02 index {}", index);
         sc
@@ -154,10 +167,11 @@ impl Campaign for C02c {
                 continue;
             }
             let reqs = conn_requests(sc, ci);
-            let m = match reqs.first() {
-                Some(m) => m,
-                None => continue,
-            };
+            // every valid request of the connection; the generated head under test is the first one
+            for m in reqs.iter().filter(|m| m.class == crate::httpmodel::Class::Valid) {
+            if !v.violations.is_empty() {
+                break;
+            }
             let id = m.id.clone().unwrap_or_default();
             let head = out.obs.events.iter().find_map(|e| match e {
                 Ev::Delivered { id: i, head, .. } if *i == id => Some(head.clone()),
@@ -197,6 +211,7 @@ impl Campaign for C02c {
                 v.tags.push("head>1024".into());
             }
             v.tags.push(format!("method={}", if ["GET", "HEAD", "POST", "PUT", "DELETE", "CONNECT", "OPTIONS", "TRACE", "PATCH"].contains(&m.method.as_str()) { m.method.as_str() } else { "extension" }));
+            }
         }
         v
     }
